@@ -75,4 +75,4 @@ def props_of(fi) -> tuple:
 
 
 def load_all() -> None:
-    from . import rnb, samp, route, struct, kraus, vbc, book, ident, block, pure, resize, dispatch, esc, measure, layout  # noqa: F401
+    from . import rnb, samp, route, struct, kraus, vbc, book, ident, block, pure, resize, dispatch, esc, measure, layout, extra  # noqa: F401
